@@ -34,7 +34,7 @@ results=""
 for prop in "$@"; do
   o=$(cd /verif && ./check $prop --tier quick 2>&1)
   rc=$?
-  sigs=$(echo "$o" | grep "^  signature:" | sed 's/^  signature: //' | tr '\n' ';')
+  sigs=$(echo "$o" | grep "^  signature:" | sed 's/^  signature: //' | tr '\n' ';' | tr -d '"\\')
   echo "check $prop rc=$rc signatures=$sigs" | tee -a $log
   results="$results{\"check\":\"$prop\",\"exit\":$rc,\"new_signatures\":\"$sigs\"},"
 done
